@@ -326,5 +326,23 @@ func corpusC07() []*scen.Scenario {
 	mkTyped("kc07typedconv", []scen.Notation{scen.N("conv", "cvT", "X", "Y")}, []string{cvT}, []string{"cvT"}, []string{"cvT"}, "")
 	mkTyped("kc07typedgetter", []scen.Notation{scen.N("map", "GetY()", "Y")}, nil, nil, []string{"A.GetY"}, "")
 	mkTyped("kc07typedhook", []scen.Notation{scen.N("postprocess", "postT")}, []string{postT}, []string{"postT"}, []string{"postT"}, "postT")
+	// :getter name matching must not pick a getter that returns (T, error) in a method without error result
+	{
+		b := scen.NewBuilder(nil, scen.Profile{}, "kc07namegetter", "kc07namegetter")
+		a := b.Struct("", "A", "X int", "gid int")
+		a.Methods = append(a.Methods, "func (r *A) ID() (int, error) {\n\tvtr.Enter(\"A.ID\")\n\tif vtr.Fail(\"A.ID\") {\n\t\treturn 0, vtr.ErrOf(\"A.ID\")\n\t}\n\treturn r.gid, nil\n}\n")
+		b.Struct("", "B", "X int", "ID int")
+		m := &scen.Method{Name: "NameGetter", Src: scen.Param{Type: "*A"}, Dst: scen.Param{Type: "*B"}, Notations: []scen.Notation{scen.N("getter")}, ErrSites: []string{"A.ID"}}
+		s := b.Manual(m)
+		s.InConv = false
+		out = append(out, s)
+	}
+	// a blank import in front of an ordinary import of a same-named package: the hook's error-ness is that of
+	// the package the generated file binds the name to
+	for _, s := range corpusImportedFuncs("kc07") {
+		if strings.HasSuffix(s.ID, "blankfirst") {
+			out = append(out, s)
+		}
+	}
 	return out
 }
